@@ -12,6 +12,7 @@ import (
 
 	"github.com/cnotch/ipchub/provider/route"
 	"github.com/cnotch/ipchub/utils"
+	"github.com/cnotch/ipchub/utils/verifhook"
 	"github.com/cnotch/scheduler"
 	"github.com/cnotch/xlog"
 )
@@ -46,6 +47,7 @@ func Regist(s *Stream) {
 		return
 	}
 
+	verifhook.Point("regist.loaded", 0)
 	// 设置新流
 	streams.Store(s.path, s)
 
